@@ -1,11 +1,12 @@
-\* storage level, exhaustive: head 0..3, <= 3 slots, <= 6 writer calls, ids {a, b, blank},
-\* 0..2 transactions per slot, one view taken at any moment and asked for any block
+\* storage level, exhaustive over call sequences of ANY length: head 0..2,
+\* <= 2 slots, ids {a, b, blank}, 0..2 txs per slot, newClasses {} or {k1}; every view
+\* obtainable in every reachable state is checked (EveryPotentialViewOK)
 CONSTANTS
-  MaxHead = 3
-  MaxSlots = 3
+  MaxHead = 2
+  MaxSlots = 2
   MaxTx = 2
   MaxUpd <- Unbounded
-  MaxViews = 1
+  MaxViews = 0
   MaxEnv <- Unbounded
   Blank <- MCBlank
   SK <- MCSK
@@ -17,7 +18,7 @@ CONSTANTS
   ClassIds <- MCClassIds
   FullBlocks <- FullBlocksSmall
   Deltas <- DeltasSmall
-  ClassSets <- ClassSets0
+  ClassSets <- ClassSets1
   Variants = {1}
   CanonDiff <- MCCanonDiff
   Genesis <- MCGenesis
@@ -26,6 +27,6 @@ CONSTANTS
 INIT Init
 NEXT Next
 VIEW view
-INVARIANTS TypeOK ChainContiguous ViewsAligned OverlayCorrect LookupExact Aligned
-PROPERTIES ViewsImmutable SnapshotIsSuffix RejectedPublishesNothing WritesAreLocal AdvanceKeepsSuffix PollerNeverMisaligned
+INVARIANTS TypeOK ChainContiguous Aligned EveryPotentialViewOK
+PROPERTIES RejectedPublishesNothing WritesAreLocal AdvanceKeepsSuffix PollerNeverMisaligned
 CHECK_DEADLOCK FALSE
